@@ -1,0 +1,10 @@
+//go:build verif
+
+package mqtt
+
+// verifAt reports a schedule point to the verification harness (build tag verif only).
+func verifAt(point string, cl *Client) {
+	if f := VerifSched; f != nil {
+		f(point, cl)
+	}
+}
